@@ -401,3 +401,70 @@ Example mpint2_example : enc_mpint2 (-6442450944) = Ok [0; 0; 0; 5; 254; 128; 0;
 Proof. split; vm_compute; reflexivity. Qed.
 Example namelist_example : enc_namelist [[97; 98]; []; [99]] = Ok [0; 0; 0; 5; 97; 98; 44; 44; 99].
 Proof. vm_compute. reflexivity. Qed.
+
+(* ---- mpint, SSH-1 (unsigned, bit count prefix) ---- *)
+Lemma strip_zeros_val l : val (strip_zeros l) = val l.
+Proof. induction l as [|b l IH]; [reflexivity|]. cbn [strip_zeros]. destruct b; try reflexivity. rewrite IH. cbn [val]. lia. Qed.
+Lemma strip_zeros_wf l : wfb l -> wfb (strip_zeros l).
+Proof. induction 1 as [|b l Hb Hl IH]; [constructor|]. cbn [strip_zeros]. destruct b; try (constructor; assumption). exact IH. Qed.
+Lemma strip_zeros_head l : strip_zeros l = [] \/ exists b t, strip_zeros l = b :: t /\ b <> 0.
+Proof. induction l as [|b l IH]; [left; reflexivity|]. cbn [strip_zeros]. destruct b; [exact IH|right; eexists; eexists; split; [reflexivity|discriminate]..]. Qed.
+Lemma val_lower b t : wfb (b :: t) -> b <> 0 -> 256 ^ zlen t <= val (b :: t).
+Proof.
+  intros H Hb. inversion H as [|? ? Hb0 Ht]; subst. pose proof (val_range t Ht). cbn [val].
+  assert (0 < 256 ^ zlen t) by (apply Z.pow_pos_nonneg; [lia|apply zlen_nonneg]). nia.
+Qed.
+Lemma pow256_unique n k1 k2 : 0 <= k1 -> 0 <= k2 -> 256 ^ (k1 - 1) <= n < 256 ^ k1 -> 256 ^ (k2 - 1) <= n < 256 ^ k2 -> 1 <= k1 -> 1 <= k2 -> k1 = k2.
+Proof.
+  intros H1 H2 A B C D. destruct (Z.lt_trichotomy k1 k2) as [L|[E|L]]; [exfalso|exact E|exfalso].
+  - assert (256 ^ k1 <= 256 ^ (k2 - 1)) by (apply Z.pow_le_mono_r; lia). lia.
+  - assert (256 ^ k2 <= 256 ^ (k1 - 1)) by (apply Z.pow_le_mono_r; lia). lia.
+Qed.
+
+Lemma dec_u16_be v r : 0 <= v < 65536 -> dec_u16 (be_bytes 2 v ++ r) = Ok (v, r).
+Proof.
+  intros H. rewrite !be_bytes_S. cbn [be_bytes_acc be_bytes app dec_u16]. unfold be_bytes. cbn [be_bytes_acc app dec_u16].
+  f_equal. f_equal. Z.div_mod_to_equations. lia.
+Qed.
+
+Lemma take_0 (l : list Z) : take 0 l = [].
+Proof. unfold take. destruct ((0 <? 0) || (zlen l <=? 0)) eqn:E; [|reflexivity]. destruct l; [reflexivity|rewrite zlen_cons in E; pose proof (zlen_nonneg l); lia]. Qed.
+Lemma drop_0 (l : list Z) : drop 0 l = l.
+Proof. unfold drop. destruct ((0 <? 0) || (zlen l <=? 0)) eqn:E; [|reflexivity]. destruct l; [reflexivity|rewrite zlen_cons in E; pose proof (zlen_nonneg l); lia]. Qed.
+
+Theorem mpint1_roundtrip n r bs : 0 <= n -> enc_mpint1 n = Ok bs -> dec_mpint1 (bs ++ r) = Ok (n, r).
+Proof.
+  intros Hn H. unfold enc_mpint1 in H. destruct (u16_ok (bitlen n)) eqn:Eu; [|discriminate].
+  assert (Hbs: bs = be_bytes 2 (bitlen n) ++ create_mpint n false (bitlen n)) by congruence. clear H. subst bs.
+  unfold u16_ok in Eu. unfold dec_mpint1, bind. rewrite <- app_assoc. rewrite dec_u16_be by lia.
+  destruct (Z.eq_dec n 0) as [->|Hnz].
+  - change (bitlen 0) with 0. change (create_mpint 0 false 0) with (@nil Z). cbn [app]. change ((0 + 7) / 8) with 0.
+    rewrite take_0, drop_0. reflexivity.
+  - destruct (bitlen_bound n Hnz) as [Hb Hp]. rewrite Z.abs_eq in Hb by lia.
+    assert (Hlow: 2 ^ (bitlen n - 1) <= n).
+    { unfold bitlen. destruct (n =? 0) eqn:E; [lia|]. rewrite Z.abs_eq by lia. replace (Z.log2 n + 1 - 1) with (Z.log2 n) by lia.
+      apply Z.log2_spec. lia. }
+    unfold create_mpint. destruct (n =? 0) eqn:E0; [lia|].
+    set (L := Z.to_nat (bitlen n / 8 + 1)). set (d := be_bytes L n). set (s := strip_zeros d).
+    assert (HLz: Z.of_nat L = bitlen n / 8 + 1) by (unfold L; pose proof (Z.div_pos (bitlen n) 8); lia).
+    assert (Hvd: val d = n).
+    { unfold d. rewrite val_be_bytes, HLz. apply Z.mod_small. split; [lia|].
+      eapply Z.lt_le_trans; [exact Hb|]. change 256 with (2 ^ 8). rewrite <- Z.pow_mul_r by (pose proof (Z.div_pos (bitlen n) 8); lia).
+      apply Z.pow_le_mono_r; [lia|]. pose proof (Z.div_mod (bitlen n) 8 ltac:(lia)). pose proof (Z.mod_pos_bound (bitlen n) 8 ltac:(lia)). lia. }
+    assert (Hws: wfb s) by (apply strip_zeros_wf, be_bytes_range).
+    assert (Hvs: val s = n) by (unfold s; rewrite strip_zeros_val; exact Hvd).
+    assert (Hlen: zlen s = (bitlen n + 7) / 8).
+    { destruct (strip_zeros_head d) as [E|[b [t [E Hb0]]]]; fold s in E.
+      - rewrite E in Hvs. cbn in Hvs. lia.
+      - rewrite E in *. pose proof (val_lower b t Hws Hb0) as Hl. pose proof (val_range _ Hws) as Hr. rewrite zlen_cons in *.
+        set (k := (bitlen n + 7) / 8).
+        assert (Hk: 8 * (k - 1) < bitlen n <= 8 * k).
+        { unfold k. pose proof (Z.div_mod (bitlen n + 7) 8 ltac:(lia)). pose proof (Z.mod_pos_bound (bitlen n + 7) 8 ltac:(lia)). lia. }
+        pose proof (zlen_nonneg t) as Ht.
+        apply (pow256_unique n (zlen t + 1) k); [lia|lia| | |lia|lia].
+        + replace (zlen t + 1 - 1) with (zlen t) by lia. lia.
+        + split.
+          * eapply Z.le_trans; [|exact Hlow]. change 256 with (2 ^ 8). rewrite <- Z.pow_mul_r by lia. apply Z.pow_le_mono_r; lia.
+          * eapply Z.lt_le_trans; [exact Hb|]. change 256 with (2 ^ 8). rewrite <- Z.pow_mul_r by lia. apply Z.pow_le_mono_r; lia. }
+    rewrite <- Hlen. rewrite take_app_exact, drop_app_exact. rewrite parse_mpint_unsigned by exact Hws. rewrite Hvs. reflexivity.
+Qed.
